@@ -6,7 +6,9 @@ import (
 	"crypto/tls"
 	"crypto/x509"
 	"fmt"
+	"io"
 	"net"
+	"net/url"
 	"strings"
 	"sync"
 	"time"
@@ -21,6 +23,7 @@ type world struct {
 	otherCA *lib.CA // untrusted
 	origins map[string]*lib.Origin
 	p       *lib.Proxy
+	up      *lib.Origin
 }
 
 func echo(oc *lib.OConn, req *lib.Msg) lib.Action {
@@ -35,6 +38,7 @@ type pcfg struct {
 	validity  time.Duration
 	insecure  bool
 	exclude   bool // mitm-domains excludes "tunnel.test"
+	upstream  bool // all traffic goes through an https:// upstream proxy
 }
 
 func newWorld(c pcfg) *world {
@@ -42,7 +46,7 @@ func newWorld(c pcfg) *world {
 	w.mitmCA = lib.NewCA("verif MITM CA")
 	w.origCA = lib.NewCA("verif origin CA")
 	w.otherCA = lib.NewCA("somebody else")
-	names := []string{"valid.test", "VALID.test", "Api.Valid.TEST", "a.test", "b.test", "c.test", "d.test", "e.test", "f.test", "g.test", "h.test", "tunnel.test", "10.11.12.13", "192.0.2.200", "2001:db8::99", "::1"}
+	names := []string{"valid.test", "VALID.test", "Api.Valid.TEST", "a.test", "b.test", "c.test", "d.test", "e.test", "f.test", "g.test", "h.test", "tunnel.test", "late-valid.test", "10.11.12.13", "192.0.2.200", "2001:db8::99", "::1"}
 	mk := func(name string, cert tls.Certificate) {
 		w.origins[name] = lib.MustOrigin(name, "127.0.0.1:0", &tls.Config{Certificates: []tls.Certificate{cert}}, echo)
 	}
@@ -51,6 +55,8 @@ func newWorld(c pcfg) *world {
 	mk("wrongname", w.origCA.ValidLeaf("some-other-name.test"))
 	mk("untrusted", w.otherCA.ValidLeaf("untrusted.test"))
 	mk("notyet", w.origCA.Leaf(time.Now().Add(24*time.Hour), time.Now().Add(48*time.Hour), "notyet.test"))
+	// a trusted certificate, but issued for the upstream proxy's own name, not for the origin's
+	mk("proxyname", w.origCA.ValidLeaf("127.0.0.1", "upstream-proxy.test"))
 	route := func(host string) string {
 		switch strings.ToLower(host) {
 		case "expired.test":
@@ -61,11 +67,36 @@ func newWorld(c pcfg) *world {
 			return w.origins["untrusted"].Addr
 		case "notyet.test":
 			return w.origins["notyet"].Addr
+		case "proxyname.test":
+			return w.origins["proxyname"].Addr
 		}
 		return w.origins["valid"].Addr
 	}
+	if c.upstream {
+		// TLS upstream proxy that splices CONNECT tunnels to the origin chosen by route()
+		w.up = lib.MustOrigin("upstream-tls", "127.0.0.1:0", &tls.Config{Certificates: []tls.Certificate{w.origCA.ValidLeaf("127.0.0.1", "upstream-proxy.test")}}, func(oc *lib.OConn, req *lib.Msg) lib.Action {
+			if req.Method != "CONNECT" {
+				return lib.Close
+			}
+			h, _, _ := net.SplitHostPort(req.Target)
+			t, err := net.Dial("tcp", route(h))
+			if err != nil {
+				return lib.Close
+			}
+			oc.Write([]byte("HTTP/1.1 200 OK\r\n\r\n"))
+			if len(oc.Rest) > 0 {
+				t.Write(oc.Rest)
+			}
+			go func() { io.Copy(t, oc.C); t.Close() }()
+			go func() { io.Copy(oc.C, t); oc.C.Close() }()
+			return lib.Hijacked
+		})
+	}
 	w.p = lib.MustProxy(lib.ProxyOpts{
 		Cfg: func(cfg *forwarder.HTTPProxyConfig) {
+			if c.upstream {
+				cfg.UpstreamProxy = &url.URL{Scheme: "https", Host: w.up.Addr}
+			}
 			m := forwarder.DefaultMITMConfig()
 			m.CACertFile = lib.DataURI(w.mitmCA.CertPEM)
 			m.CAKeyFile = lib.DataURI(w.mitmCA.KeyPEM)
@@ -85,6 +116,9 @@ func newWorld(c pcfg) *world {
 			tc.CACertFiles = []string{lib.DataURI(w.origCA.CertPEM)}
 			tc.Insecure = c.insecure
 			tc.RedirectFunc = func(network, address string) (string, string) {
+				if w.up != nil && address == w.up.Addr {
+					return network, address
+				}
 				h, _, _ := net.SplitHostPort(address)
 				return network, route(h)
 			}
@@ -95,6 +129,9 @@ func newWorld(c pcfg) *world {
 
 func (w *world) close() {
 	w.p.Stop()
+	if w.up != nil {
+		w.up.Close()
+	}
 	for _, o := range w.origins {
 		o.Close()
 	}
@@ -193,6 +230,7 @@ func main() {
 		{name: "cache8-exclude", cacheSize: 8, exclude: true},
 		{name: "short-validity", cacheSize: 64, validity: 2 * time.Second, ttl: 10 * time.Minute},
 		{name: "short-ttl", cacheSize: 4, ttl: 1500 * time.Millisecond, validity: 3 * time.Second},
+		{name: "https-upstream-exclude", cacheSize: 8, exclude: true, upstream: true},
 	}
 	workers := 8
 	perWorker := run.N(40, 400)
@@ -231,6 +269,9 @@ func main() {
 		originVerification(run, w, c, base+900_000, root)
 		if c.exclude {
 			excluded(run, w, base+950_000)
+			// whatever the tunnelled CONNECTs left behind must not change origin verification
+			// (hosts not contacted before, so that no pooled upstream connection hides the verification)
+			originVerification(run, w, c, base+960_000, root, "late-valid", "proxyname", "wrongname")
 		}
 		w.close()
 	}
@@ -322,8 +363,10 @@ func oneHandshake(run *lib.Run, w *world, c pcfg, idx int, t target, withRequest
 
 // originVerification: requests read from the intercepted session go to origins whose
 // certificates are expired / not yet valid / for another name / from an untrusted CA.
-func originVerification(run *lib.Run, w *world, c pcfg, base int, root *lib.RNG) {
-	kinds := []string{"expired", "wrongname", "untrusted", "notyet", "valid"}
+func originVerification(run *lib.Run, w *world, c pcfg, base int, root *lib.RNG, kinds ...string) {
+	if len(kinds) == 0 {
+		kinds = []string{"expired", "wrongname", "untrusted", "notyet", "valid"}
+	}
 	for rep := 0; rep < 4; rep++ {
 		for ki, k := range kinds {
 			idx := base + rep*10 + ki
@@ -331,8 +374,12 @@ func originVerification(run *lib.Run, w *world, c pcfg, base int, root *lib.RNG)
 				continue
 			}
 			host := k + ".test"
+			ok := k // name of the origin that serves this host
+			if k == "late-valid" {
+				ok = "valid"
+			}
 			run.Case(idx, fmt.Sprintf("%s|origin-%s", c.name, k), nil)
-			before := int64(len(w.origins[k].Requests()))
+			before := int64(len(w.origins[ok].Requests()))
 			hs, err := handshake(w.p, target{authority: host + ":443", host: host, sni: host, want: host})
 			if err != nil {
 				run.Violation("mitm-handshake-failed:origin-check", err.Error(), idx, nil)
@@ -342,13 +389,13 @@ func originVerification(run *lib.Run, w *world, c pcfg, base int, root *lib.RNG)
 			fmt.Fprintf(hs.conn, "POST /r HTTP/1.1\r\nHost: %s\r\nX-Vid: %s\r\nContent-Length: 6\r\n\r\nsecret", host, id)
 			m, pst, _ := hs.st.ReadResponse("POST", 15*time.Second)
 			hs.conn.Close()
-			got := int64(len(w.origins[k].Requests())) - before
+			got := int64(len(w.origins[ok].Requests())) - before
 			wit := map[string]any{"config": c.name, "origin_certificate": k, "insecure": c.insecure, "origin_requests": got}
 			if m != nil {
 				wit["client_status"] = m.Status
 			}
 			switch {
-			case k == "valid" || c.insecure:
+			case k == "valid" || k == "late-valid" || c.insecure:
 				if pst != lib.POK || m.Status != 200 || got != 1 {
 					run.Violation("verifiable-origin-not-served:"+k, fmt.Sprintf("origin with a %s certificate (insecure=%v) must be served: status %v, origin saw %d requests", k, c.insecure, m, got), idx, wit)
 				} else if c.insecure && k != "valid" {
